@@ -91,6 +91,16 @@ def evalS (ε : Env) : Expr CFloat → Info → Option (List CFloat × Info)
         let (bs, i) := bases vs i
         let rs := dedupe (bs.map CFloat.sqrt)
         some (rs, noteAll i rs)
+      | .cis =>
+        -- `cos z + i·sin z` (mod.rs:412) cancels catastrophically for `Im z ≫ 0`: both terms are ≈ e^{Im z}/2
+        let noise := vs.any fun v =>
+          let c := CFloat.cos v
+          let sn := CFloat.sin v
+          let r := CFloat.cis v
+          fin r && fin c && fin sn && mag r ≤ 1e-6 * (if mag c < mag sn then mag sn else mag c)
+        let i := if noise then { i with cutNear := true } else i
+        let rs := dedupe (vs.map CFloat.cis)
+        some (rs, noteAll i rs)
       | _ => let rs := dedupe (vs.map (calcFn f)); some (rs, noteAll i rs)
   | .bin l op r, i =>
     match evalS ε l i with
@@ -109,11 +119,11 @@ def evalS (ε : Env) : Expr CFloat → Info → Option (List CFloat × Info)
           let rs := dedupe (as'.flatMap fun a => bs.map fun b => CFloat.pow a b)
           some (rs, noteAll i rs)
         | _ =>
-          -- a sum/difference that cancels to rounding noise (not to an exact 0) is noise: whatever is computed
-          -- from it (a quotient by it, a root of it) is decided by rounding
+          -- a sum/difference that loses 6 or more digits to cancellation (without being an exact 0) is noise:
+          -- whatever is computed from it (a quotient by it, a root of it) is decided by rounding
           let noise := (op == .plus || op == .minus) && as.any fun a => bs.any fun b =>
             let r := calcInfix a op b
-            !(r.1 == 0.0 && r.2 == 0.0) && fin r && mag r ≤ 1e-9 * (if mag a < mag b then mag b else mag a)
+            !(r.1 == 0.0 && r.2 == 0.0) && fin r && mag r ≤ 1e-6 * (if mag a < mag b then mag b else mag a)
           let i := if noise then { i with cutNear := true } else i
           let rs := dedupe (as.flatMap fun a => bs.map fun b => calcInfix a op b)
           some (rs, noteAll i rs)
